@@ -483,6 +483,67 @@ func (p *pkgFiles) strSliceLit(o *out, name string) {
 	o.pf("def slice_%s : List (List UInt8) := [%s]\n\n", name, strings.Join(items, ", "))
 }
 
+// eventLiterals emits every `Event{...}` composite literal in the package: command expression, the source
+// text of its Params, and whether it sets Sensitive: true.
+func (p *pkgFiles) eventLiterals(o *out) {
+	type lit struct {
+		file, cmd, params string
+		sens              bool
+		line              int
+	}
+	var lits []lit
+	var names []string
+	for n := range p.files {
+		names = append(names, n)
+	}
+	sort.Strings(names)
+	for _, n := range names {
+		f := p.files[n]
+		ast.Inspect(f, func(nd ast.Node) bool {
+			cl, ok := nd.(*ast.CompositeLit)
+			if !ok {
+				return true
+			}
+			id, ok := cl.Type.(*ast.Ident)
+			if !ok || id.Name != "Event" {
+				return true
+			}
+			l := lit{file: n, line: p.fset.Position(cl.Pos()).Line}
+			for _, el := range cl.Elts {
+				kv, ok := el.(*ast.KeyValueExpr)
+				if !ok {
+					continue
+				}
+				k, _ := kv.Key.(*ast.Ident)
+				if k == nil {
+					continue
+				}
+				switch k.Name {
+				case "Command":
+					l.cmd = p.src(kv.Value)
+				case "Params":
+					l.params = p.src(kv.Value)
+				case "Sensitive":
+					if v, ok := kv.Value.(*ast.Ident); ok && v.Name == "true" {
+						l.sens = true
+					}
+				}
+			}
+			lits = append(lits, l)
+			return true
+		})
+	}
+	o.pf("/-- every `Event{…}` literal: (command expression, Params source text, Sensitive) -/\ndef eventLiterals : List (List UInt8 × List UInt8 × Bool) := [\n")
+	for i, l := range lits {
+		sep := ","
+		if i == len(lits)-1 {
+			sep = ""
+		}
+		o.pf("  (%s, %s, %v)%s -- %s:%d %s\n", leanBytes(l.cmd), leanBytes(l.params), l.sens, sep, l.file, l.line, l.cmd)
+	}
+	o.pf("]\n\n")
+}
+
 func main() {
 	repo := flag.String("repo", "/repo", "repository root")
 	outPath := flag.String("out", "/verif/lean/Girc/Gen/Facts.lean", "output Lean file")
@@ -513,6 +574,9 @@ func main() {
 	p.bytePreds(o, [][2]string{{"IsValidNick", ""}, {"IsValidUser", ""}, {"IsValidChannel", ""}, {"ToRFC1459", ""},
 		{"validTag", ""}, {"validTagValue", ""}, {"DecodeCTCP", ""}, {"parseCMD", "CTCP"}, {"IsValidChannelMode", ""}, {"Fmt", ""}})
 	p.byteSliceLits(o, "IsValidChannel")
+
+	o.pf("/-! ## event literals -/\n")
+	p.eventLiterals(o)
 
 	o.pf("/-! ## cmdhandler -/\n")
 	ch := load(filepath.Join(*repo, "cmdhandler"))
